@@ -59,13 +59,13 @@ Proof.
 Qed.
 
 Lemma walk_loop_wf sov path :
-  (forall v st v' st', wf v -> sov v st = Ok (v', st') -> wf v') ->
+  (forall v st v' st', wf v -> sov v st = Ok (v', st') -> wf v' /\ top_ok v') ->
   forall segs v st trav v' st', wf v -> walk_loop sov path segs v st trav = Ok (v', st') -> wf v'.
 Proof.
   intros Hs. induction segs as [|key segs IH]; intros v st trav v' st' Hw H; cbn [walk_loop] in H.
   - injection H as <- _. exact Hw.
   - destruct (sov v st) as [[newv st1]| | |] eqn:E; cbn [bind] in H; try discriminate.
-    pose proof (Hs _ _ _ _ Hw E) as Hn.
+    destruct (Hs _ _ _ _ Hw E) as [Hn _].
     destruct newv; try discriminate.
     destruct (m_get (VStr key) es) as [v1|] eqn:G; [|discriminate].
     eapply IH; [|exact H]. eapply wf_get; eauto.
@@ -95,7 +95,7 @@ Definition P_interp f := forall v st v' st', wf v -> interp f root v st = Ok (v'
 Definition P_map f := forall m st m', wf (VMap m) -> mapping_interp f root m st = Ok m' -> closed (VMap m') /\ wf (VMap m') /\ keys m' = keys m.
 Definition P_render f := forall t st v' st', token_render f root t st = Ok (v', st') -> closed v' /\ wf v'.
 Definition P_resolve f := forall t st v' st', token_resolve f root t st = Ok (v', st') -> wf v' /\ top_ok v'.
-Definition P_sov f := forall v st v' st', wf v -> interp_sov f root v st = Ok (v', st') -> wf v'.
+Definition P_sov f := forall v st v' st', wf v -> interp_sov f root v st = Ok (v', st') -> wf v' /\ top_ok v'.
 Definition P_while f := forall v st v' st', wf v -> interp_while f root v st = Ok (v', st') -> wf v' /\ top_ok v'.
 Definition P_while_str f := forall v st v' st', wf v -> interp_while_str f root v st = Ok (v', st') -> wf v'.
 
@@ -158,14 +158,15 @@ Proof.
         injection H as <- _. split; [exact I | split; reflexivity].
     + (* interp_sov *)
       intros v st v' st' Hwv H. cbn [interp_sov] in H. destruct v as [| b | s | s | n | es | l | l];
-        try (injection H as <- _; exact Hwv).
-      * apply (Hi _ _ _ _ Hwv H).
+        try (injection H as <- _; split; [exact Hwv | split; reflexivity]).
+      * destruct (Hi _ _ _ _ Hwv H) as [Hc1 Hw1]. split; [exact Hw1 | apply closed_top_ok, Hc1].
       * destruct (sov_loop (interp f root) st l) as [i| | |] eqn:E; cbn [bind] in H; try discriminate.
         destruct (flattened (current_key st) (VList i)) as [r| | |] eqn:Ef; cbn [bind] in H; try discriminate.
         injection H as <- _. apply wf_list_iff in Hwv.
-        pose proof (sov_loop_wf _ _ Hcb _ _ Hwv E) as Hwi.
-        eapply flattened_wf; [|exact Ef]. apply wf_list_iff.
-        eapply Forall_impl; [|exact Hwi]. intros a [Ha [_ Hb]]. split; assumption.
+        pose proof (sov_loop_wf _ _ Hcb _ _ Hwv E) as Hwi. split.
+        -- eapply flattened_wf; [|exact Ef]. apply wf_list_iff.
+           eapply Forall_impl; [|exact Hwi]. intros a [Ha [_ Hb]]. split; assumption.
+        -- exact (proj2 (flattened_layers _ _ Hwi) _ Ef).
     + (* interp_while *)
       intros v st v' st' Hwv H. cbn [interp_while] in H.
       destruct (is_string v || is_vlist v) eqn:Eb.
